@@ -1,7 +1,7 @@
 (* C08: non-vacuity of the shallow = True theorem and of swap-with-renames on the pair of
    Proofs/IndexDiffExamples.v. *)
 From Coq Require Import NArith List Bool Arith Lia Permutation.
-From DvcData Require Import Base.Val Base.PyBase Gen.PyTypes Gen.IDiff Model.Trie Model.IndexDiff Proofs.IndexDiffProofsBase Proofs.IndexDiffBfs Proofs.IndexDiffRefine Proofs.IndexDiffRenames Proofs.IndexDiffExamples Proofs.IndexDiffShallow Proofs.IndexDiffSwapRen.
+From DvcData Require Import Base.Val Base.PyBase Gen.PyTypes Gen.IDiff Model.Trie Model.IndexDiff Proofs.IndexDiffProofsBase Proofs.IndexDiffBfs Proofs.IndexDiffRefine Proofs.IndexDiffRenames Proofs.IndexDiffExamples Proofs.IndexDiffShallow Proofs.IndexDiffSwapRen Proofs.IndexDiffRoots Proofs.IndexDiffSwapSh.
 Import ListNotations.
 Open Scope N_scope.
 
@@ -36,3 +36,49 @@ Example ex_swapped_renames :
   [ (2, [[100]], [[100]]); (2, [[120]], [[120]]); (2, [[101]], [[101]]); (3, [[100];[104]], [[100];[103]]);
     (4, [[120];[119]], []); (4, [[121];[122]], []) ].
 Proof. vm_compute. reflexivity. Qed.
+
+(* ---- roots -------------------------------------------------------------------------------------------------------- *)
+(* prefix-free roots [d; y; z] (z is on neither side): exactly the keys at or below d and y, each once *)
+Definition ex_roots : list key := [[[100]]; [[121]]; [[122]]].
+
+Example ex_roots_antichain : antichain (eff_roots ex_roots).
+Proof.
+  split.
+  - repeat constructor; simpl; intros H; repeat (destruct H as [H|H]; [discriminate|]); exact H.
+  - intros a b Ha Hb. simpl in Ha, Hb.
+    repeat (destruct Ha as [<-|Ha]); try contradiction;
+      repeat (destruct Hb as [<-|Hb]); try contradiction; vm_compute; intros E; try reflexivity; discriminate.
+Qed.
+
+Example ex_roots_run :
+  option_map (map (fun c => (typ_code (c_typ c), change_key c)))
+    (diff_core_roots (opts_of_code 0) (Some ex_old) (Some ex_new) ex_roots
+       (fuel_for_roots (Some ex_old) (Some ex_new) ex_roots)) =
+  Some [ (2, [[100]]); (4, [[100];[103]]); (1, [[100];[104]]); (1, [[121];[122]]) ].
+Proof. vm_compute. reflexivity. Qed.
+
+(* overlapping roots [(); d]: the sub-tree of d is reported once per covering root - key d, d/g, d/h twice.
+   "Each key once" does NOT hold for overlapping roots (the real code behaves the same; the property's
+   quantifier does not cover `roots`) *)
+Definition ex_overlap : list key := [[]; [[100]]].
+
+Example ex_overlap_run :
+  option_map (map (fun c => (typ_code (c_typ c), change_key c)))
+    (diff_core_roots (opts_of_code 0) (Some ex_old) (Some ex_new) ex_overlap
+       (fuel_for_roots (Some ex_old) (Some ex_new) ex_overlap)) =
+  Some [ (2, [[100]]); (2, [[100]]); (2, [[120]]); (2, [[101]]); (4, [[100];[103]]); (1, [[100];[104]]);
+         (4, [[100];[103]]); (1, [[100];[104]]); (1, [[120];[119]]); (1, [[121];[122]]) ].
+Proof. vm_compute. reflexivity. Qed.
+
+Lemma roots_once_refuted :
+  exists o old new rs cs k,
+    WfO old /\ WfO new /\ HashConsistent old new /\ o_shallow o = false /\
+   diff_core_roots o old new rs (fuel_for_roots old new rs) = Some cs /\
+   length (filter (fun c => key_eqb (change_key c) k) cs) = 2%nat /\ ~ NoDup (map change_key cs).
+Proof.
+  exists (opts_of_code 0), (Some ex_old), (Some ex_new), ex_overlap.
+  eexists. exists [[100]].
+  split; [exact ex_wf_old|]. split; [exact ex_wf_new|]. split; [exact ex_hc|]. split; [reflexivity|].
+  split; [vm_compute; reflexivity|]. split; [vm_compute; reflexivity|].
+  intros H. inversion H as [|x l Hx _]; subst. apply Hx. now left.
+Qed.
